@@ -288,7 +288,7 @@ def build_stages(pc2, g, sk, idx, hints, float_mode):
     return stages
 
 
-def solve_stages(stages, rlimit, timeout_ms, use_cvc5, cex_terms):
+def solve_stages(stages, rlimit, timeout_ms, use_cvc5, cex_terms, deadline=None):
     """rounds of growing budget; first unsat wins. Only complete stages (qf when there is no full stage, full) give a
     definite counter-model; a qf model with an undecided full stage is a candidate ("sat-qf")."""
     t0 = time.time()
@@ -298,13 +298,22 @@ def solve_stages(stages, rlimit, timeout_ms, use_cvc5, cex_terms):
     stages = sorted(stages, key=lambda s: order[s[0]])
     has_full = any(l == "full" for l, _ in stages)
     done = set()
-    for frac in (0.05, 1.0):
+
+    def z3_round(frac):
+        nonlocal verdict, backend, model, cand
         for label, asserts in stages:
             if label in done:
                 continue
             s = z3.Solver()
             s.set("rlimit", int(rlimit * frac))
-            s.set("timeout", int(timeout_ms * frac) + 1000)
+            tmo = int(timeout_ms * frac) + 1000
+            if deadline is not None:
+                left = int((deadline - time.time()) * 1000)
+                if left < 500:
+                    detail.append((label, "skipped:obligation-budget", 0))
+                    continue
+                tmo = min(tmo, left)
+            s.set("timeout", tmo)
             s.add(*asserts)
             t1 = time.time()
             try:
@@ -316,7 +325,7 @@ def solve_stages(stages, rlimit, timeout_ms, use_cvc5, cex_terms):
             detail.append((label, str(r), round(time.time() - t1, 3)))
             if r == z3.unsat:
                 verdict, backend = "unsat", f"z3/{label}"
-                break
+                return
             if r == z3.sat:
                 done.add(label)
                 if label in ("qf", "full"):
@@ -329,36 +338,108 @@ def solve_stages(stages, rlimit, timeout_ms, use_cvc5, cex_terms):
                             pass
                     if label == "full" or not has_full:
                         verdict, backend, model = "sat", f"z3/{label}", mm
-                        break
+                        return
                     cand = mm
-        if verdict != "unknown":
-            break
-    if verdict == "unknown" and use_cvc5:
-        for label, asserts in [st for st in stages if st[0] in ("full", "qf")]:
-            r, secs = run_cvc5(to_smt2(asserts), max(5, timeout_ms // 2000))
+
+    def cvc5_round(tlimit):
+        nonlocal verdict, backend, model, cand
+        for label, asserts in [st for st in stages if st[0] in ("full", "qf") and ("cvc5/" + st[0]) not in done]:
+            if deadline is not None:
+                left = int(deadline - time.time())
+                if left < 2:
+                    continue
+                tlimit = min(tlimit, left)
+            r, secs, mm = run_cvc5(to_smt2(asserts, cex_terms), tlimit, list((cex_terms or {}).keys()))
             detail.append(("cvc5/" + label, r, secs))
             if r == "unsat":
                 verdict, backend = "unsat", f"cvc5/{label}"
-                break
+                return
+            if r == "sat":
+                done.add("cvc5/" + label)
+                if label == "full" or not has_full:
+                    verdict, backend, model = "sat", f"cvc5/{label}", mm
+                    return
+                if cand is None:
+                    cand = mm
+
+    z3_round(0.05)
+    if verdict == "unknown" and use_cvc5:
+        cvc5_round(8)
+    if verdict == "unknown":
+        z3_round(1.0)
+    if verdict == "unknown" and use_cvc5:
+        cvc5_round(max(10, timeout_ms // 2000))
     if verdict == "unknown" and cand is not None:
         verdict, backend, model = "sat-qf", "z3/qf", cand
     return {"verdict": verdict, "backend": backend, "model": model, "detail": detail, "secs": round(time.time() - t0, 3)}
 
 
-def run_cvc5(text, tlimit_s):
+def run_cvc5(text, tlimit_s, cex_names=()):
     t0 = time.time()
     body = "\n".join(l for l in text.splitlines() if not l.startswith("(set-info"))
+    if cex_names:
+        body += "\n(get-value (" + " ".join(f"|{n}|" for n in cex_names) + "))\n"
     with tempfile.NamedTemporaryFile("w", suffix=".smt2", delete=False) as f:
-        f.write("(set-logic ALL)\n" + body)
+        f.write("(set-option :produce-models true)\n(set-logic ALL)\n" + body)
         path = f.name
+    mm = {}
     try:
         p = subprocess.run(["/usr/bin/cvc5", "--lang=smt2", f"--tlimit={tlimit_s * 1000}", path], capture_output=True, text=True, timeout=tlimit_s + 10)
         out = p.stdout.strip().splitlines()
         r = out[0] if out else "unknown"
         if r not in ("sat", "unsat", "unknown"):
             r = "error:" + (p.stdout + p.stderr)[:80].replace("\n", " ")
+        if r == "sat" and len(out) > 1:
+            mm = parse_get_value(" ".join(out[1:]))
     except subprocess.TimeoutExpired:
         r = "timeout"
     finally:
         os.unlink(path)
-    return r, round(time.time() - t0, 3)
+    return r, round(time.time() - t0, 3), mm
+
+
+def parse_get_value(text):
+    """((|cex!0| 5) (|cex!1| (- 3)) (|cex!2| (/ 1 3)) (|cex!3| true)) -> {name: value-string}"""
+    toks = text.replace("(", " ( ").replace(")", " ) ").split()
+    pos = [0]
+
+    def sexp():
+        t = toks[pos[0]]
+        pos[0] += 1
+        if t == "(":
+            out = []
+            while toks[pos[0]] != ")":
+                out.append(sexp())
+            pos[0] += 1
+            return out
+        return t
+
+    def num(x):
+        from fractions import Fraction
+
+        if isinstance(x, str):
+            if x in ("true", "false"):
+                return x == "true"
+            return Fraction(x)
+        if x[0] == "-":
+            return -num(x[1])
+        if x[0] == "/":
+            return num(x[1]) / num(x[2])
+        raise ValueError(str(x))
+
+    out = {}
+    try:
+        for name, val in sexp():
+            try:
+                v = num(val)
+            except Exception:  # noqa
+                continue
+            if isinstance(v, bool):
+                out[name.strip("|")] = "True" if v else "False"
+            elif v.denominator == 1:
+                out[name.strip("|")] = str(v.numerator)
+            else:
+                out[name.strip("|")] = f"{v.numerator}/{v.denominator}"
+    except Exception:  # noqa
+        pass
+    return out
